@@ -133,6 +133,23 @@ func init() {
 				nlt = 40
 			}
 			for i := 0; i < nlt; i++ {
+				if i%3 == 2 {
+					// ticks every few milliseconds up to the end: a tick followed by an evaluation made while triggering was still
+					// on has been handed over in time, whatever the clocks say
+					iv := pick(r, 2, 3, 5, 7)
+					p := c09Params{Interval: iv * 1000, StopAt: -1, StallAt: -1}
+					for k := 0; k < 12; k++ {
+						p.Values = append(p.Values, 1+r.IntN(6))
+					}
+					p.Spec = engine.Spec{Mode: "custom", CustomIntervalUS: iv * 1000, CustomRates: p.Values, Concurrency: 64, MaxDurationMS: 150 + r.IntN(200), IgnoreDropped: true}
+					p.Desc = fmt.Sprintf("last-ticks interval=%dms max-duration=%dms", iv, p.Spec.MaxDurationMS)
+					cse := core.MkCase("C09", "lasttick", i, seed, p)
+					cse.Race = i%2 == 0
+					cse.Procs = pick(r, 2, 16)
+					cse.TimeoutMS = 60000
+					cs = append(cs, cse)
+					continue
+				}
 				iv := pick(r, 100, 150, 300)
 				nEv := 2 + r.IntN(3)
 				p := c09Params{Interval: iv * 1000, StopAt: -1, StallAt: -1}
@@ -243,18 +260,25 @@ func c09LastTick(c *core.Case, o *core.Outcome) {
 	}
 	var mu sync.Mutex
 	var deadline time.Time
-	var sure, all int64
-	var nSure, nAll int
+	var trigCtx context.Context
+	var sure, all, before, committed int64
+	var nSure, nAll, nCommitted int
 	hooks := &engine.Hooks{
 		OnTrigger: func(ctx context.Context) {
 			mu.Lock()
 			deadline, _ = ctx.Deadline()
+			trigCtx = ctx
 			mu.Unlock()
 		},
 		OnRate: func(k int, _ time.Time, v int) int {
 			now := time.Now()
 			mu.Lock()
+			if trigCtx != nil && trigCtx.Err() == nil {
+				// triggering is still on at this evaluation: every earlier tick was handed over, and returned, while it was on
+				committed, nCommitted = before, nAll
+			}
 			all += int64(v)
+			before = all
 			nAll++
 			if !deadline.IsZero() && now.Before(deadline.Add(-8*time.Millisecond)) {
 				sure += int64(v)
@@ -264,7 +288,9 @@ func c09LastTick(c *core.Case, o *core.Outcome) {
 			return v
 		},
 	}
+	stopWatch := hiccups()
 	r := engine.Execute(context.Background(), p.Spec, l, scenario, hooks, nil)
+	worstHiccup := stopWatch()
 	if r.NewErr != nil {
 		o.Inconc("harness: cannot build run: %v", r.NewErr)
 		return
@@ -276,12 +302,20 @@ func c09LastTick(c *core.Case, o *core.Outcome) {
 		o.Inconc("the trigger's context carried no deadline (%s)", p.Desc)
 		return
 	}
+	if got < committed || got > all {
+		o.Violate("lasttick-committed:"+p.Desc, "%d evaluations were followed by another one made while triggering was still on, so their ticks were handed over in time; their values sum to %d (all %d evaluations: %d); the run reports %d started + dropped: a tick's value did not become that tick's request (%s)", nCommitted, committed, nAll, all, got, p.Desc)
+		return
+	}
+	if got < sure && worstHiccup > 3*time.Millisecond {
+		o.Inconc("timers of this process fired up to %v late during the run: an evaluation 8 ms before the end may have been handed over after it (%s)", worstHiccup, p.Desc)
+		return
+	}
 	if got < sure || got > all {
 		o.Violate("lasttick:"+p.Desc, "%d evaluations were made at least 8 ms before triggering stopped and their values sum to %d (all %d evaluations: %d); the run reports %d started + dropped: a tick's value did not become that tick's request (%s)", nSure, sure, nAll, all, got, p.Desc)
 		return
 	}
 	o.AddObs("evaluations_checked", int64(nAll))
-	if nSure >= 2 {
+	if nSure >= 2 || nCommitted >= 20 {
 		o.AddObs("last_ticks_checked", 1)
 		o.Sig("lasttick:interval=%dus:sure=%d:all=%d", p.Interval, nSure, nAll)
 	}
